@@ -95,6 +95,12 @@ CHECKS["C09"] = dict(
    text="(a) every createOffer/createAnswer/localDescription text over the C03 quick product with follow-up rounds is a fixed point of parse-then-serialise and its parsed fields equal the live transceivers/senders/ICE gatherers/DTLS/SCTP objects at generation time; (b) constructed SessionDescription objects over present/absent x 2-3 values of every optional attribute and 1-3 sections are field-equal after a round trip; (c) every single line deletion, duplication and adjacent swap of those texts that the parser accepts is idempotent under one more round; (d) 103 680 candidate lines round-trip exactly, also through the signalling helpers.",
    note="Texts rejected by the parser with an exception are out of scope here (C05); attribute values from 2-3 listed values each.",
    design="2/C09")
+CHECKS["C19"] = dict(
+   level="model_checking",
+   technique="stateless exploration of interruption points: the scripted life of a real RTCPeerConnection pair is stepped one event-loop callback at a time and close() is injected at every cut index, for every closer, on the virtual-time loop; terminal oracle on states, events, tasks and threads",
+   text="For 4 (quick) / 8 (thorough) connection shapes, EVERY cut index of the life script (creation, offer/answer, ICE, real DTLS handshake, SCTP set-up, data messages, RTCP timers; every await boundary is a cut) x closers {A, B, both at once, A twice concurrently, A after its peer vanished}: replay to the cut, start close(), continue under the default policy. Oracle: close() completes within 30 virtual seconds, second close() is a no-op, signaling/ICE/connection states closed, every channel closed, received tracks ended and their consumers released, no event after completion, no task pending and no decoder thread alive once both sides are closed, no task died with an exception.",
+   note="aioice replaced by a fake connection (no consent-freshness timers); tracks produce no media in this harness; set iteration order over transports is address dependent, so a replay in another process may hit a neighbouring instant.",
+   design="2/C19")
 NOT_YET = {}
 
 def main():
